@@ -12,7 +12,7 @@ use serde_json::{json, Map, Value};
 
 const STREAM: u64 = 8;
 
-pub const DEVIATIONS: [&str; 31] = [
+pub const DEVIATIONS: [&str; 34] = [
     "none",
     "member-arity",
     "member-nonarray",
@@ -43,6 +43,9 @@ pub const DEVIATIONS: [&str; 31] = [
     "digest-decorated-in-array",
     "sd-malformed-container",
     "placeholder-outside-array",
+    "name-collides-equal-value",
+    "disclosure-trailing-text",
+    "disclosure-invalid-utf8",
     "compose",
 ];
 
@@ -52,9 +55,9 @@ pub fn run(ctx: &Ctx) -> Report {
     let mut rep = Report::new(
         "fault_enumeration",
         "case i: a (payload, disclosures) pair produced by the harness's own encoder (nested objects/arrays depth<=3, hidden members and \
-         elements with present or withheld disclosures, decoys), with deviation kind i%31 forced at a random eligible site (kind \
+         elements with present or withheld disclosures, decoys), with deviation kind i%34 forced at a random eligible site (kind \
          'compose': 2-3 random deviations; 'none': well-formed control that must be accepted), signed with the test issuer key \
-         (alg=(i/31)%3), format=(i/93)%2. Oracle: specification verifier Spec (draft-07 §6.1). evaluations = tokens verified. \
+         (alg=(i/34)%3), format=(i/102)%2. Oracle: specification verifier Spec (draft-07 §6.1). evaluations = tokens verified. \
          Distinct = (payload shape, deviation set, format, alg); non-trivial = at least one deviation applied or >=1 referenced \
          disclosure.",
         local,
@@ -109,6 +112,32 @@ impl<'a> B<'a> {
             return true;
         }
         false
+    }
+    /// base64url of the disclosure text; two text-level deviations apply to presented,
+    /// referenced disclosures: non-blank text after the closing bracket, and a byte that is not
+    /// valid UTF-8 inside a string — neither is a JSON value any more
+    fn encode_disclosure(&mut self, arr: &Value, present: bool) -> String {
+        let text = arr.to_string();
+        if present && arr.is_array() && self.dev("disclosure-trailing-text") {
+            let tail = *self.r.pick(&["]", "x", "[]", " ,", "}", "\"\"", " null", "\u{0}", "//c", &text]);
+            return b64e(format!("{text}{tail}").as_bytes());
+        }
+        if present && arr.is_array() && text.contains('"') && self.dev("disclosure-invalid-utf8") {
+            let mut bytes = text.clone().into_bytes();
+            // put the offending byte(s) right behind the first quote, i.e. inside a string
+            let at = bytes.iter().position(|b| *b == b'"').unwrap_or(0) + 1;
+            let bad: &[u8] = match self.r.below(4) {
+                0 => &[0xFF],
+                1 => &[0xC3],
+                2 => &[0xE2, 0x82],
+                _ => &[0xED, 0xA0, 0x80],
+            };
+            for (k, b) in bad.iter().enumerate() {
+                bytes.insert(at + k, *b);
+            }
+            return b64e(&bytes);
+        }
+        b64e(text.as_bytes())
     }
     fn leaf(&mut self) -> Value {
         match self.r.below(6) {
@@ -165,6 +194,12 @@ impl<'a> B<'a> {
                     let ks: Vec<String> = m.keys().cloned().collect();
                     let ek = self.r.pick(&ks).clone();
                     json!([salt, ek, v])
+                } else if !m.is_empty() && self.dev("name-collides-equal-value") {
+                    // the colliding disclosure carries exactly the value that is already there
+                    let ks: Vec<String> = m.keys().cloned().collect();
+                    let ek = self.r.pick(&ks).clone();
+                    let ev = m.get(&ek).cloned().unwrap_or(Value::Null);
+                    json!([salt, ek, ev])
                 } else if !disclosed_names.is_empty() && self.dev("name-collides-disclosed") {
                     let ek = disclosed_names[0].clone();
                     json!([salt, ek, v])
@@ -176,7 +211,7 @@ impl<'a> B<'a> {
                     }
                     json!([salt, k, v])
                 };
-                let d = b64e(arr.to_string().as_bytes());
+                let d = self.encode_disclosure(&arr, present);
                 let h = digest_of(&d);
                 self.pool.push(h.clone());
                 if present {
@@ -294,7 +329,7 @@ impl<'a> B<'a> {
                 } else {
                     json!([salt, v])
                 };
-                let d = b64e(arr.to_string().as_bytes());
+                let d = self.encode_disclosure(&arr, present);
                 let h = digest_of(&d);
                 self.pool.push(h.clone());
                 if present {
@@ -349,8 +384,8 @@ fn shape(v: &Value) -> u64 {
 fn one_case(ctx: &Ctx, case: u64, l: &mut Local) {
     let mut r = Rng::for_case(ctx.seed, STREAM, case);
     let force = DEVIATIONS[(case % DEVIATIONS.len() as u64) as usize];
-    let alg = ALL_ALGS[((case / 31) % 3) as usize];
-    let fmt = FMTS[((case / 93) % 2) as usize];
+    let alg = ALL_ALGS[((case / 34) % 3) as usize];
+    let fmt = FMTS[((case / 102) % 2) as usize];
     let mut b = B {
         r: &mut r,
         discs: vec![],
@@ -447,7 +482,7 @@ fn one_case(ctx: &Ctx, case: u64, l: &mut Local) {
         disclosures: discs.clone(),
         kb,
     };
-    let pres = match parts.encode(fmt, case / 186) {
+    let pres = match parts.encode(fmt, case / 204) {
         Some(p) => p,
         None => return,
     };
